@@ -95,6 +95,7 @@ type Router struct {
 	nat            *networkAddressTranslator // read-only
 	nics           map[string]NIC            // read-only
 	stopFunc       func()                    // requires mutex [x]
+	loopDone       chan struct{}             // closed when the forwarding loop of the latest Start has ended; requires mutex [x]
 	resolver       *resolver                 // read-only
 	chunkFilters   []ChunkFilter             // requires mutex [x]
 	minDelay       time.Duration             // requires mutex [x]
@@ -235,7 +236,18 @@ func (r *Router) Start() error { //nolint:cyclop
 
 	cancelCh := make(chan struct{})
 
+	// Stop does not wait for the forwarding loop to end. A loop that is still
+	// winding down must not run next to the new one: it could take the new
+	// run's wake-up or forward a chunk out of order.
+	prevDone := r.loopDone
+	doneCh := make(chan struct{})
+	r.loopDone = doneCh
+
 	go func() {
+		defer close(doneCh)
+		if prevDone != nil {
+			<-prevDone
+		}
 	loop:
 		for {
 			duration, err := r.processChunks()
